@@ -63,6 +63,7 @@ class Console:
         self.timer: dict[int, dict] = {}
         self.errtext: dict[int, str | None] = {}
         self.foreign: dict[str, dict[int, dict]] = {"ac": {}, "zone": {}}
+        self.report_foreign = False  # True: the full status answers also list the foreign records, in front of the known ones
         self.reset_state()
         self.rx: list[dict] = []  # every client frame: {seq,t,link,frame,reading}
         self.rx_bad: list[dict] = []
@@ -207,6 +208,8 @@ class Console:
 
     def f_ac_status(self, pid: int, acs=None) -> bytes:
         ids = sorted(self.ac) if acs is None else list(acs)
+        if acs is None and self.report_foreign:
+            ids = sorted(i for i in self.foreign["ac"] if i not in self.ac and (self.gen == 5 or i < 4)) + ids
         if self.gen == 4:
             return wire4.f_status(pid, wire4.T_AC_STATUS, b"".join(wire4.enc_ac_status_record(self._rec("ac", i)) for i in ids))
         stride = self.inst.get("ac_stride", 10)
@@ -214,6 +217,8 @@ class Console:
 
     def f_zone_status(self, pid: int, zones=None) -> bytes:
         ids = sorted(self.zone) if zones is None else list(zones)
+        if zones is None and self.report_foreign:
+            ids = sorted(i for i in self.foreign["zone"] if i not in self.zone) + ids
         if self.gen == 4:
             return wire4.f_status(pid, wire4.T_GROUP_STATUS, b"".join(wire4.enc_group_status_record(self._rec("zone", i)) for i in ids))
         stride = self.inst.get("zone_stride", 8)
